@@ -247,25 +247,31 @@ var profC09 = Profile{
 
 // dependents: keys of tasks that (transitively) consume an output of t.
 func dependents(ex *Expect, t *RTask) map[*RTask]bool {
-	dep := map[*RTask]bool{}
-	tainted := map[*Lin]bool{t.Lin: true}
-	changed := true
-	for changed {
-		changed = false
+	if d, ok := ex.depCache[t]; ok {
+		return d
+	}
+	if ex.consumers == nil {
+		ex.consumers = map[*Lin][]*RTask{}
+		ex.depCache = map[*RTask]map[*RTask]bool{}
 		for _, u := range ex.Tasks {
-			if dep[u] || u == t {
-				continue
-			}
 			for _, up := range u.Lin.Upstream {
-				if tainted[up] {
-					dep[u] = true
-					tainted[u.Lin] = true
-					changed = true
-					break
-				}
+				ex.consumers[up] = append(ex.consumers[up], u)
 			}
 		}
 	}
+	dep := map[*RTask]bool{}
+	work := []*Lin{t.Lin}
+	for len(work) > 0 {
+		l := work[len(work)-1]
+		work = work[:len(work)-1]
+		for _, u := range ex.consumers[l] {
+			if !dep[u] && u != t {
+				dep[u] = true
+				work = append(work, u.Lin)
+			}
+		}
+	}
+	ex.depCache[t] = dep
 	return dep
 }
 
